@@ -14,8 +14,8 @@ Fixpoint chain (fuel : nat) (gt : gtab) (g : nat) : list nat :=
        | S f => match parent gt g with Some p => chain f gt p | None => [] end
        end.
 Definition gchain (gt : gtab) (g : nat) : list nat := chain g gt g.
-(* SimGroup.depth *)
-Definition depth (gt : gtab) (g : nat) : nat := length (gchain gt g).
+(* SimGroup.gdepth *)
+Definition gdepth (gt : gtab) (g : nat) : nat := length (gchain gt g).
 Fixpoint index_of (x : nat) (l : list nat) : option nat :=
   match l with [] => None | y :: r => if Nat.eqb x y then Some O else option_map S (index_of x r) end.
 (* the while-loop of group_path; None = ValueError("no joint parent") *)
@@ -50,9 +50,9 @@ Definition connect_interval (gt : gtab) (sg dg : nat) (shifted : Z) (weak : Z) :
   match group_path gt sg dg with
   | None => CErr CValueError
   | Some (ascent, _, common) =>
-      let pre := depth gt sg in
+      let pre := gdepth gt sg in
       let cutoff := (pre - ascent)%nat in
-      let tiers := repeat 0%Z (depth gt dg) in
+      let tiers := repeat 0%Z (gdepth gt dg) in
       if negb (weak =? 0)%Z && (match parent gt common with None => true | Some _ => false end) then CErr CScenarioError else
       let tiers := if negb (shifted =? 0)%Z then set_nth 0 shifted tiers else tiers in
       if negb (weak =? 0)%Z && (cutoff <? 2)%nat then CErr CAssert else
@@ -61,5 +61,5 @@ Definition connect_interval (gt : gtab) (sg dg : nat) (shifted : Z) (weak : Z) :
       if wfIb r then COk r else CErr CAssert
   end.
 
-(* SimRunner.from_world_time / world time of a simulator at depth d *)
+(* SimRunner.from_world_time / world time of a simulator at gdepth d *)
 Definition from_world (d : nat) : interval := mkI 1 1 (repeat 0%Z d).
